@@ -1,6 +1,7 @@
 use crate::engine::{run_check, run_replay, Tier};
 use std::path::Path;
 
+pub mod c07;
 pub mod c14;
 
 pub fn worker_main() {
@@ -11,6 +12,7 @@ pub fn worker_main() {
 macro_rules! table {
     ($id:expr, $f:ident, $arg:expr) => {
         match $id {
+            "C07" => $f(&c07::C07, $arg),
             "C14" => $f(&c14::C14, $arg),
             other => {
                 eprintln!("unknown property {other}");
